@@ -327,3 +327,14 @@ Proof.
   - intro l. apply Permutation_sym, Permutation_rev.
   - vm_compute. intro H. discriminate H.
 Qed.
+
+(* sorted(set, key=k) with a key that is not injective: ties follow the set's iteration order *)
+Lemma sorted_with_key_depends :
+  exists (k : str -> str) (l : list str) (perm1 perm2 : perm_oracle),
+    Permutation (perm1 l) l /\ Permutation (perm2 l) l /\ sort_by k (perm1 l) <> sort_by k (perm2 l).
+Proof.
+  exists (fun _ => []), [s "P1"; s "P01"], (fun x => x), (@rev str). repeat split.
+  - apply Permutation_refl.
+  - apply Permutation_sym, Permutation_rev.
+  - vm_compute. intro H. discriminate H.
+Qed.
